@@ -16,6 +16,10 @@ pub struct Case {
     pub ap: bool,
     pub in_use: bool,
     pub max: u32,
+    /// Pages by which the platform's first DMA device address is moved forward: with 0xFFFFF the
+    /// page-frame bits 12..31 of the queue's base address are all set, so that forming an area
+    /// address with anything but an addition (carry) shows.
+    pub skew: u32,
 }
 
 pub fn max_values(n: usize) -> Vec<u32> {
@@ -34,6 +38,7 @@ pub fn max_values(n: usize) -> Vec<u32> {
 pub fn run_case<const N: usize>(c: Case) -> (String, Vec<(String, String)>) {
     let mut v: Vec<(String, String)> = vec![];
     hal::reset();
+    hal::with(|h| h.skew_dma(c.skew as u64));
     let mut d = VirtioDev::new(DeviceType::Block, 0, 1, c.max, vec![]);
     d.legacy = c.legacy;
     d.queues[0].in_use_answer = c.in_use;
